@@ -612,7 +612,7 @@ func init() {
 			"(c) Unmarshal(reconstruction) deep-equals u; (d) without capacity/fold IsEqual holds in both directions; (e) on every fourth tree a value is pushed onto a nested stack afterwards and Unmarshal of the root must show the new shape. One tree in twelve contains a stack of 14..44 elements. non-trivial = depth >= 2 with a Condition holding a Stack; distinct = tree description.",
 		Assumptions: []string{"(d) relies on the library's own comparator and is therefore an additional assertion only", "aliases are C12's subject; natives only here"},
 		Floors: func(string) map[string]int64 {
-			return map[string]int64{"round-trips": 20000, "trees.deep-with-condition-stack": 3000, "isequal-checked": 10000, "unmarshal-after-nested-write": 5000, "trees.with-wide-stack": 2000}
+			return map[string]int64{"round-trips": 20000, "towers": 12, "trees.with-nested-stack-of-another-magnitude": 12, "trees.with-left-over-errors": 5000, "cases.with-bystander-goroutines": 3000, "trees.deep-with-condition-stack": 3000, "isequal-checked": 10000, "unmarshal-after-nested-write": 5000, "trees.with-wide-stack": 2000}
 		},
 	})
 }
